@@ -13,6 +13,8 @@ def plan(tier, seed):
                     env=dict(VERIF_ONE_DICT=1), shape=dict(one_dict=1)), name="C16-h_update_rules[one-dict]"),
             ch("C16", F, "h_write_read_verbatim", 60, ["api.ParquetFile.key_value_metadata", "util.ensure_str"])]
     jobs.append(ch("C16", F, "h_kv_property", t, ["api.ParquetFile.key_value_metadata", "util.ensure_str"]))
+    jobs.append(ch("C16", "vf/pyshim/h_write.py", "h_write_custom_metadata", t,
+                   ["writer.write (custom_metadata / attrs merge)"]))
     # the bytes of the keys and values themselves: the lifted serialiser on KeyValue / FileMetaData (str values travel
     # through a char*: every byte counts, also NUL)
     from . import thrift_struct
